@@ -415,11 +415,15 @@ class Program:
                 if r and r[0] == "module":
                     return self.const(r[1], e.attr)
                 if r and r[0] == "class":
+                    if self.is_enum(r[1]):
+                        raise Unknown("enum member")
                     a = self.class_attr_expr(r[1], e.attr)
                     if a:
                         return self.const_eval(a[1], a[0].module, a[0])
             else:
                 c = self.resolve_class_expr(m, e.value)
+                if c is not None and self.is_enum(c):
+                    raise Unknown("enum member")
                 if c is not None:
                     a = self.class_attr_expr(c, e.attr)
                     if a:
@@ -546,6 +550,14 @@ class Program:
         if isinstance(e, ast.Slice):
             return slice(ce(e.lower) if e.lower else None, ce(e.upper) if e.upper else None, ce(e.step) if e.step else None)
         raise Unknown(f"cannot fold {ast.dump(e)[:80]}")
+
+    def is_enum(self, ci: ClassInfo) -> bool:
+        for c in self.mro(ci):
+            for b in c.base_exprs:
+                n = b.attr if isinstance(b, ast.Attribute) else getattr(b, "id", "")
+                if n in ("Enum", "IntEnum", "Flag", "IntFlag"):
+                    return True
+        return False
 
     def try_const(self, e: ast.expr, m: Module, cls: Optional[ClassInfo] = None, env=None, default=None) -> Any:
         try:
